@@ -11,4 +11,5 @@ package xsub
 //@   lock Mutex level 20
 //@   guarded_by Mutex: closed recvQLen recvExpire recvQ sizeQ
 //@   immutable: closeQ
+//@   elem_invariant recvQ: !shared(elem)
 //@
